@@ -216,7 +216,7 @@ Definition updp_search (g : mgraph) (u c : nat) (o : uopts) : sres :=
   end.
 
 (* ---------- run_case ----------
-   input  L [I 0; graph; L queries]
+   input  L [I 0; graph; L queries]      (L [I 1; graph; L [L [query; path]; ...]] : check mode, see run_check)
      query L [I 0; I u; I c; first; second; forbid; I fc]   (options: L [] or L [I x])
            L [I 1; I u; I a; I c]
    output per query  L [I code; L valid_paths; I search_found; path]   (discriminating: the same four again for the
@@ -252,6 +252,29 @@ Definition run_query (g : mgraph) (q : sx) : sx :=
       L (one false ++ one true)
   end.
 
+(* check mode (large graphs, where the enumerations are out of reach): each entry is L [query; path]; the answer is the
+   verdict of the verified checker ([updp_valid_b] / [disc_valid_b] with the property's reading of "parent") on that
+   path.  Used (a) on a closed-form candidate path, whose validity proves that a path exists, and (b) on the path the
+   implementation returned. *)
+Definition run_check (g : mgraph) (e : sx) : sx :=
+  let q := sx_nth e 0 in
+  let p := sx_nats (sx_nth e 1) in
+  match sx_nat (sx_nth q 0) with
+  | 0 =>
+      let u := sx_nat (sx_nth q 1) in
+      let c := sx_nat (sx_nth q 2) in
+      let o := MkO (sx_opt (sx_nth q 3)) (sx_opt (sx_nth q 4)) (sx_opt (sx_nth q 5)) (sx_bool (sx_nth q 6)) in
+      of_bool (updp_valid_b g u c o p)
+  | _ =>
+      let u := sx_nat (sx_nth q 1) in
+      let a := sx_nat (sx_nth q 2) in
+      let c := sx_nat (sx_nth q 3) in
+      of_bool (disc_valid_b g (par_of g false a c) u a c p)
+  end.
+
 Definition run_case (s : sx) : sx :=
   let g := sx_graph (sx_nth s 1) in
-  L (map (run_query g) (sx_list (sx_nth s 2))).
+  match sx_nat (sx_nth s 0) with
+  | 0 => L (map (run_query g) (sx_list (sx_nth s 2)))
+  | _ => L (map (run_check g) (sx_list (sx_nth s 2)))
+  end.
